@@ -17,7 +17,7 @@ RULE = ("Hypothesis draws a volume (40..64 per side) with 2-6 planted particles 
         "template matcher), spaced >= 6 sigma (or 1.6 template boxes) apart and away from the faces, a pixel scale, an "
         "image dtype (float32/float64/int16/uint8) and a dask chunking (incl. chunks smaller than the overlap depth) "
         "with the particles placed relative to chunk borders (interior / on a border / on a corner shared by 8 "
-        "chunks); in a third of the LoG / template-matcher cases two particles are diagonal neighbours (farther apart than the exclusion distance, but within its ceiling along every axis: point-like particles (3,3,3) px apart for sigma 2.2/2.5, compact 9-voxel template particles 5-6 px apart per axis with min_distance = 6 px); for the blob pickers one image axis in three of seven cases is a thin slab shorter than the overlap depth with the particles on its mid-plane. Oracle: picks scoring at least half the median score at the planted sites must be in bijection with "
+        "chunks); in a third of the LoG / template-matcher cases two particles are diagonal neighbours (farther apart than the exclusion distance, but within its ceiling along every axis: point-like particles (3,3,3) px apart for sigma 2.2, compact 9-voxel template particles 5-6 px apart per axis with min_distance = 6 px); for the blob pickers one image axis in three of seven cases is a thin slab shorter than the overlap depth with the particles on its mid-plane. Oracle: picks scoring at least half the median score at the planted sites must be in bijection with "
         "the particles (within 1 px, none missed, no duplicates within the exclusion distance, none elsewhere), the "
         "template matcher must report the planted rotation, and the strong-pick set must be the same for numpy input "
         "and for the chunked input. Non-trivial = more than one chunk along an axis with a particle within the overlap "
@@ -201,7 +201,9 @@ def cases(draw, pickers=("LoG", "DoG", "ZNCC")):
         sigma_px = draw(st.sampled_from([2.0, 2.5, 3.0]))
         if pairmode:
             # point-like particles 3 voxels apart on every axis (5.2 px = 2.1-2.4 sigma: resolved by the LoG response)
-            sigma_px, psigma, pair_off = draw(st.sampled_from([2.2, 2.5])), 0.8, [3, 3, 3]
+            # (sigma 2.5 would put the neighbours at 2.08 sigma: with noise the weaker one is sometimes not a maximum of its own -
+            # seen once in a thorough run; 2.36 sigma is safely resolved)
+            sigma_px, psigma, pair_off = 2.2, 0.8, [3, 3, 3]
         depth = int(math.ceil(5 * sigma_px)) + 1
         spacing = int(math.ceil(7 * sigma_px))
         margin = int(math.ceil(4 * sigma_px)) + 2
@@ -268,7 +270,7 @@ def cases(draw, pickers=("LoG", "DoG", "ZNCC")):
         p1 = [v + (pair_off[a] if v < (vol[a] - 1) / 2 else -pair_off[a]) for a, v in enumerate(p0["pos"])]
         inside = all(margin <= p1[a] <= vol[a] - 1 - margin for a in range(3))
         if inside and all(math.dist(p1, q["pos"]) >= 0.6 * spacing for q in parts[1:]):
-            parts.insert(1, {"pos": p1, "k": p0["k"], "cls": "pair", "amp": 0.8, "grid": bool(p0.get("grid")) or picker == "LoG"})
+            parts.insert(1, {"pos": p1, "k": p0["k"], "cls": "pair", "amp": 0.85, "grid": bool(p0.get("grid")) or picker == "LoG"})
             p0["cls"] = "pair"
     return {"picker": picker, "scale": scale, "vol": vol, "chunks": chunks, "particles": parts, "sigma_px": sigma_px,
             "tshape": tshape, "blobs": blobs, "rots": rots, "min_dist_px": min_dist, "depth": depth, "psigma": psigma,
@@ -276,7 +278,7 @@ def cases(draw, pickers=("LoG", "DoG", "ZNCC")):
             "baseline": draw(st.sampled_from([0.0, 0.0, 100.0, 5000.0])),
             "dtype": draw(st.sampled_from(["float32", "float32", "float64", "int16", "uint8"])),
             # (normalised template-matching scores of two identical noise-free particles tie exactly: keep some noise there)
-            "noise": draw(st.sampled_from([0.01, 0.03] if (pairmode and picker == "ZNCC") else [0.0, 0.01, 0.03])), "seed": draw(gen.seeds)}
+            "noise": draw(st.sampled_from([0.01, 0.03] if (pairmode and picker == "ZNCC") else [0.0, 0.01] if pairmode else [0.0, 0.01, 0.03])), "seed": draw(gen.seeds)}
 
 
 def judge_many_rotations(d):
